@@ -235,13 +235,17 @@ func c13Body(r *vlib.Run) int {
 				hist = append(hist, "open-failed")
 				return
 			}
-			cmd := "cat:plain=true " + f + " regex:noop "
+			// session options are client-supplied: whatever a client claims, the
+			// server-wide limits apply
+			opts := []string{"plain=true", "plain=true:quiet=true", "plain=true:serverless=true", "serverless=true", "quiet=true:serverless=true:plain=true"}[hrng.Intn(5)]
+			cmd := "cat:" + opts + " " + f + " regex:noop "
 			switch mode {
 			case "grep":
-				cmd = "grep:plain=true " + f + " regex:default fox"
+				cmd = "grep:" + opts + " " + f + " regex:default fox"
 			case "tail":
-				cmd = "tail:plain=true " + f + " regex:noop "
+				cmd = "tail:" + opts + " " + f + " regex:noop "
 			}
+			r.SetAdd("session_options", opts)
 			io.WriteString(in, encodeCommand(cmd))
 			sessions = append(sessions, &c13Session{id: id, mode: mode, file: f, client: client, out: out, in: in, live: true})
 			hist = append(hist, fmt.Sprintf("open(%s#%d as %s)", mode, id, userName))
